@@ -65,7 +65,7 @@ RULE = ("cases = (rule set, term): rule sets of 1-5 rules (12 hand-written + see
         "symbol changed) of a rule's lhs; non-trivial = some rule matches or is yielded; distinct = distinct (rule set, term)")
 ASSUMPTIONS = ["the brute-force matcher and substitution of the harness (structural equality of tuples, identity of the "
                "function objects) define 'matches' and 'instance'; terms are ground (never contain the variable names)"]
-BUDGET = {"quick": 60, "thorough": 540}
+BUDGET = {"quick": 60, "thorough": 900}
 FLOORS = {
     # measured (quick, seed 0, tree at 897c9b5): 294 784 cases, 46 657 distinct non-trivial, matches_expected 61 846,
     # sound_yields 61 846, repeated_variable_matches 5 627, several-matching 6 563, fixed-arity matching terms 25 270
@@ -80,11 +80,11 @@ FLOORS = {
     # sound_yields 1 459 051, repeated_variable_matches 92 401, several-matching 283 001, fixed-arity matching 304 966
     "thorough": {"evaluations": 2000000, "distinct_nontrivial": 450000,
                  "counters": {"iter_matches_calls": 2000000, "rewrite_calls": 2000000, "matches_expected": 650000,
-                              "sound_yields": 650000, "repeated_variable_matches": 40000,
-                              "terms_with_several_matching_rules": 125000, "fixed_arity_matching_terms": 135000,
+                              "sound_yields": 650000, "repeated_variable_matches": 30000,
+                              "terms_with_several_matching_rules": 125000, "fixed_arity_matching_terms": 100000,
                               "nonmatching_terms": 1500000, "rewrite_applied_matching_rule": 500000,
                               "rewrite_left_unchanged": 1450000},
-                 "sets": {"matching_rule_sets": 120000}},
+                 "sets": {"matching_rule_sets": 90000}},
 }
 EXHAUSTIVE_SPACE = {
     "quick": "all 4683 terms of depth <= 2 over {f,g,h} x {1,2,'c'} with arity 1-2, each against every rule set of the fixed "
